@@ -100,7 +100,9 @@ pub fn gen_dimacs(kind: &str, rng: &mut StdRng) -> Vec<u8> {
             out.push_str(&eol(rng, crlf));
         }
     }
-    comment(rng, &mut out);
+    if out.is_empty() || out.ends_with('\n') {
+        comment(rng, &mut out);
+    }
     out.into_bytes()
 }
 
@@ -118,8 +120,10 @@ pub fn gen_log(rng: &mut StdRng) -> Vec<u8> {
                 out.push_str(["s SATISFIABLE\n", "s UNSATISFIABLE\n", "s UNKNOWN\n"][rng.gen_range(0..3)]);
             }
             2 if !v_done => {
-                out.push_str("v");
-                out.push_str(ws(rng));
+                out.push_str("v ");
+                if rng.gen_range(0..4) == 0 {
+                    out.push_str(ws(rng));
+                }
                 for _ in 0..rng.gen_range(0..4) {
                     out.push_str(&dimacs_lit(rng, 9));
                     out.push_str(ws(rng));
@@ -674,4 +678,181 @@ pub fn render_log(v: &LogValue, canonical: bool, unknown_lines: bool, rng: &mut 
     }
     if !s_first { s_line(&mut out); filler(&mut out, rng); }
     out.into_bytes()
+}
+
+
+// ---------------------------------------------------------------------------------------------
+// C08 sentence 2: corrupt one numeric token of a well-formed document at a known span
+// ---------------------------------------------------------------------------------------------
+pub struct Corruption { pub doc: Vec<u8>, pub line: usize, pub col_lo: usize, pub col_hi: usize, pub kind: &'static str }
+
+pub fn corrupt(parser: &str, lit: &str, doc: &[u8], rng: &mut StdRng) -> Option<Corruption> {
+    // tokens: maximal runs of non-blank bytes, with line bookkeeping
+    let mut toks: Vec<(usize, usize, usize, usize)> = vec![]; // (start, end, line, line_start)
+    let (mut line, mut line_start, mut i) = (1usize, 0usize, 0usize);
+    let mut in_comment_section = false;
+    while i < doc.len() {
+        let b = doc[i];
+        if b == b'\n' {
+            line += 1;
+            line_start = i + 1;
+            i += 1;
+            continue;
+        }
+        if b == b' ' || b == b'\t' || b == b'\r' {
+            i += 1;
+            continue;
+        }
+        let s = i;
+        while i < doc.len() && !b" \t\r\n".contains(&doc[i]) {
+            i += 1;
+        }
+        let first_on_line = doc[line_start..s].iter().all(|c| *c == b' ' || *c == b'\t');
+        let line_bytes_end = doc[line_start..].iter().position(|&c| c == b'\n').map_or(doc.len(), |p| line_start + p);
+        let lb = &doc[line_start..line_bytes_end];
+        let lfirst = lb.iter().copied().find(|c| *c != b' ' && *c != b'\t').unwrap_or(b' ');
+        if (parser == "aag") && first_on_line && &doc[s..i] == b"c" {
+            in_comment_section = true;
+        }
+        let skip_line = match parser {
+            "cnf" | "wcnf" | "gcnf" => lfirst == b'c' || lfirst == b'p',
+            "log" => lfirst != b'v',
+            "aag" => lb.starts_with(b"aag") || in_comment_section || !lfirst.is_ascii_digit(),
+            _ => lfirst == b';' || lb.contains(&b';'),
+        };
+        let tok = &doc[s..i];
+        let numeric = !tok.is_empty() && tok.iter().enumerate().all(|(k, c)| c.is_ascii_digit() || (k == 0 && *c == b'-' && tok.len() > 1));
+        if numeric && !skip_line {
+            toks.push((s, i, line, line_start));
+        }
+    }
+    if toks.is_empty() {
+        return None;
+    }
+    let (s, e, line, ls) = toks[rng.gen_range(0..toks.len())];
+    let tok = &doc[s..e];
+    let (rep, kind): (&[u8], &'static str) = match rng.gen_range(0..3) {
+        0 => (b"x!z", "garbage"),
+        1 => (b"99999999999999999999999999", "overflow"),
+        _ => {
+            if (parser == "cnf" || parser == "log") && lit == "i8" && tok != b"0" && tok != b"-0" {
+                (b"200", "out_of_range")
+            } else {
+                (b"x!z", "garbage")
+            }
+        }
+    };
+    let mut d = doc[..s].to_vec();
+    d.extend_from_slice(rep);
+    d.extend_from_slice(&doc[e..]);
+    Some(Corruption { doc: d, line, col_lo: s - ls + 1, col_hi: s - ls + rep.len() + 1, kind })
+}
+
+
+// ---------------------------------------------------------------------------------------------
+// C06 for AIGER: literals on and around 2M+1, counts around M, delta codes of every encoded length
+// ---------------------------------------------------------------------------------------------
+fn encode_delta_padded(d: u128, pad: usize, out: &mut Vec<u8>) {
+    // 7-bit groups, little end first; `pad` extra zero groups (non-canonical but decodable)
+    let mut groups: Vec<u8> = vec![];
+    let mut x = d;
+    loop {
+        groups.push((x & 0x7f) as u8);
+        x >>= 7;
+        if x == 0 {
+            break;
+        }
+    }
+    for _ in 0..pad {
+        groups.push(0);
+    }
+    let n = groups.len();
+    for (i, g) in groups.iter().enumerate() {
+        out.push(if i + 1 < n { g | 0x80 } else { *g });
+    }
+}
+
+pub fn gen_aiger_bounds(binary: bool, rng: &mut StdRng) -> Vec<u8> {
+    let i = rng.gen_range(0..3usize);
+    let l = rng.gen_range(0..2usize);
+    let a = rng.gen_range(0..3usize);
+    let m = (i + l + a + [0usize, 0, 0, 1][rng.gen_range(0..4)]).saturating_sub(if rng.gen_range(0..8) == 0 { 1 } else { 0 });
+    let maxlit = 2 * m + 1;
+    let lit = |rng: &mut StdRng| -> String {
+        match rng.gen_range(0..10) {
+            0 => (maxlit + 1).to_string(),
+            1 => maxlit.to_string(),
+            2 => (2 * m).to_string(),
+            3 => "0".to_string(),
+            4 => "1".to_string(),
+            5 => HUGE[rng.gen_range(0..HUGE.len())].to_string(),
+            _ => rng.gen_range(0..=maxlit).to_string(),
+        }
+    };
+    let o = rng.gen_range(0..3usize);
+    let b = rng.gen_range(0..2usize);
+    let mut out: Vec<u8> = vec![];
+    let mut hdr = format!("{} {} {} {} {} {}", if binary { "aig" } else { "aag" }, m, i, l, o, a);
+    if b > 0 || rng.gen_range(0..4) == 0 {
+        hdr.push_str(&format!(" {}", b));
+    }
+    out.extend_from_slice(hdr.as_bytes());
+    out.push(b'\n');
+    let def = |k: usize, rng: &mut StdRng| -> String {
+        // a defining literal: normally 2*(k+1), sometimes odd / zero / out of range
+        match rng.gen_range(0..12) {
+            0 => (2 * (k + 1) + 1).to_string(),
+            1 => "0".to_string(),
+            2 => (maxlit + 1).to_string(),
+            _ => (2 * (k + 1)).to_string(),
+        }
+    };
+    if !binary {
+        for k in 0..i {
+            out.extend_from_slice(format!("{}\n", def(k, rng)).as_bytes());
+        }
+    }
+    for k in 0..l {
+        let st = 2 * (i + k + 1);
+        let mut line = String::new();
+        if !binary {
+            line.push_str(&format!("{} ", def(i + k, rng)));
+        }
+        line.push_str(&lit(rng));
+        match rng.gen_range(0..5) {
+            0 => line.push_str(" 0"),
+            1 => line.push_str(" 1"),
+            2 => line.push_str(&format!(" {}", st)),
+            3 => line.push_str(&format!(" {}", st + 2)),
+            _ => {}
+        }
+        out.extend_from_slice(line.as_bytes());
+        out.push(b'\n');
+    }
+    for _ in 0..o + b {
+        out.extend_from_slice(format!("{}\n", lit(rng)).as_bytes());
+    }
+    for k in 0..a {
+        let code = 2 * (i + l + k + 1);
+        if binary {
+            let d0: u128 = match rng.gen_range(0..8) {
+                0 => code as u128 + 1,
+                1 => code as u128,
+                2 => (1u128 << 64) + rng.gen_range(0..4) as u128,
+                3 => 1u128 << (7 * rng.gen_range(1..10)),
+                _ => rng.gen_range(0..=code) as u128,
+            };
+            encode_delta_padded(d0, if rng.gen_range(0..5) == 0 { rng.gen_range(1..9) } else { 0 }, &mut out);
+            let in0 = (code as u128).saturating_sub(d0);
+            let d1: u128 = match rng.gen_range(0..6) {
+                0 => in0 + 1,
+                1 => (1u128 << 63) + 5,
+                _ => rng.gen_range(0..=in0.min(1000)) as u128,
+            };
+            encode_delta_padded(d1, if rng.gen_range(0..6) == 0 { rng.gen_range(1..9) } else { 0 }, &mut out);
+        } else {
+            out.extend_from_slice(format!("{} {} {}\n", def(i + l + k, rng), lit(rng), lit(rng)).as_bytes());
+        }
+    }
+    out
 }
